@@ -753,8 +753,13 @@ flatcc_builder_ref_t flatcc_builder_embed_buffer(flatcc_builder_t *B,
     uoffset_t size_field, pad;
     iov_state_t iov;
     int with_size = (flags & flatcc_builder_with_size) != 0;
+    /*
+     * Level 0 means no buffer is started. `is_top_buffer` cannot be used
+     * here because it also holds inside the open top-level buffer.
+     */
+    int is_nested = B->level > 0;
 
-    if (align_buffer_end(B, &align, block_align, !is_top_buffer(B))) {
+    if (align_buffer_end(B, &align, block_align, is_nested)) {
         return 0;
     }
     /*
@@ -766,7 +771,7 @@ flatcc_builder_ref_t flatcc_builder_embed_buffer(flatcc_builder_t *B,
     write_uoffset(&size_field, (uoffset_t)size + pad);
     init_iov();
     /* Add ubyte vector size header if nested buffer. */
-    push_iov_cond(&size_field, field_size, !is_top_buffer(B));
+    push_iov_cond(&size_field, field_size, is_nested);
     push_iov(data, size);
     push_iov(_pad, pad);
     return emit_front(B, &iov);
